@@ -80,6 +80,16 @@ class Volunteer(Person):
     pass
 
 
+def _seasonal():
+    @dataclass(eq=False, repr=False)
+    class Seasonal(Employee):
+        """made by a factory that is called twice: two distinct classes with one qualified name"""
+    return Seasonal
+
+
+SeasonalA, SeasonalB = _seasonal(), _seasonal()
+
+
 @dataclass(eq=False, repr=False)
 class WorkingStudent(Employee, Volunteer):
     """diamond: Person <- Employee, Volunteer <- WorkingStudent"""
@@ -123,6 +133,12 @@ class Visitor(Symbol):
 class Delegate(Visitor):
     """only this subclass of the declared role taker type carries the super-property field"""
     attends: List[Org] = field(default_factory=list)
+
+
+@dataclass(eq=False, repr=False)
+class Convener(Delegate):
+    """carries the lowest (leads) and the highest (attends) level of Leads < Chairs < Attends, but not the middle one"""
+    leads: List[Org] = field(default_factory=list)
 
 
 @dataclass(eq=False)
@@ -193,6 +209,11 @@ class Chairs(Attends):
 
 
 @dataclass
+class Leads(Chairs):
+    pass
+
+
+@dataclass
 class SubOrgOf(PropertyDescriptor, TransitiveProperty):
     ...
 
@@ -226,6 +247,7 @@ Org.sub_org_of = SubOrgOf(Org, "sub_org_of")
 Unit.under = SubOrgOf(Unit, "under")
 Delegate.attends = Attends(Delegate, "attends")
 Chair.chairs = Chairs(Chair, "chairs")
+Convener.leads = Leads(Convener, "leads")
 Org.wholly_owned_by = WhollyOwnedBy(Org, "wholly_owned_by")
 Org.part_of = PartOf(Org, "part_of")
 Org.has_part = HasPart(Org, "has_part")
@@ -234,5 +256,5 @@ PERSON_CLASSES = {"Person": Person, "Employee": Employee, "Manager": Manager, "V
                   "WorkingStudent": WorkingStudent}
 ORG_CLASSES = {"Org": Org, "Dept": Dept}
 ODD_CLASSES = {"Bag": Bag, "Crate": Crate}
-ALL_CLASSES = {**PERSON_CLASSES, **ORG_CLASSES, "Chief": Chief, "VOrg": VOrg, "VPerson": VPerson, "Unit": Unit,
-               "Visitor": Visitor, "Delegate": Delegate, "Chair": Chair}
+ALL_CLASSES = {**PERSON_CLASSES, **ORG_CLASSES, "SeasonalA": SeasonalA, "SeasonalB": SeasonalB, "Chief": Chief, "VOrg": VOrg, "VPerson": VPerson, "Unit": Unit,
+               "Visitor": Visitor, "Delegate": Delegate, "Chair": Chair, "Convener": Convener}
